@@ -226,6 +226,9 @@ def run_shard(ctx):
     ws = real.Workspace()
     rng = ctx.rng
     subsection_stratum(ctx, ws, ctx.share(64, 3000))
+    if ctx.shard % 4 == 2:
+        from jv import strata
+        strata.same_stat_probe(ctx, ws, 3, binary=True)       # an object rebuilt in place with pinned timestamps
     archive_stratum(ctx, ws, ctx.share(32, 1500))
     bdir = os.path.join(real.JASM_REPO, "tests", "binary")
     if os.path.isdir(bdir):
@@ -270,6 +273,9 @@ def run_shard(ctx):
 
 
 def replay(ctx, case):
+    if case.get("same_stat"):
+        from jv import strata
+        return strata.same_stat_probe(ctx, real.Workspace(), 8, binary=bool(case.get("binary")))
     install()
     import base64
     judge(ctx, real.Workspace(), base64.b64decode(case["object_b64"]), case["sections"], "replay", ["?", "?"], [], case.get("extra_config"))
